@@ -5,6 +5,7 @@ package main
 
 import (
 	"bufio"
+	"context"
 	"encoding/hex"
 	"encoding/json"
 	"fmt"
@@ -338,4 +339,46 @@ func libStacks(max int) string {
 		res = res[:max]
 	}
 	return res
+}
+
+// watchdog: a context that is cancelled only when the case makes no progress for `idle` (a real hang),
+// however slow the machine is. Runners call tick() whenever something moves (a read returned, the
+// scripted transport served bytes, an operation finished).
+type watchdog struct {
+	ctx    context.Context
+	cancel context.CancelFunc
+	last   atomic.Int64
+	hung   atomic.Bool
+	stopc  chan struct{}
+	once   sync.Once
+}
+
+func newWatchdog(idle time.Duration) *watchdog {
+	w := &watchdog{stopc: make(chan struct{})}
+	w.ctx, w.cancel = context.WithCancel(context.Background())
+	w.tick()
+	go func() {
+		t := time.NewTicker(idle / 4)
+		defer t.Stop()
+		for {
+			select {
+			case <-w.stopc:
+				return
+			case <-t.C:
+				if time.Since(time.Unix(0, w.last.Load())) > idle {
+					w.hung.Store(true)
+					w.cancel()
+					return
+				}
+			}
+		}
+	}()
+	return w
+}
+
+func (w *watchdog) tick() { w.last.Store(time.Now().UnixNano()) }
+
+func (w *watchdog) stop() {
+	w.once.Do(func() { close(w.stopc) })
+	w.cancel()
 }
